@@ -13,6 +13,7 @@ import (
 
 	"verif/fw"
 	"verif/gen"
+	"verif/mon"
 	"verif/sim"
 
 	cid "github.com/ipfs/go-cid"
@@ -215,7 +216,7 @@ func globalCase(c *fw.Ctx, r *fw.Rand, idx int) {
 			}
 			allocated := false
 			if pin != nil {
-				if pin.IsPinEverywhere() {
+				if mon.Everywhere(pin) {
 					allocated = true
 				}
 				for _, a := range pin.Allocations {
